@@ -251,7 +251,7 @@ def replay(path: str, out: hlib.RecWriter) -> None:
         if cfg['pre'] == 'absW':
             toks = [['/', c] for c in w.base] + toks[nb:]
         new = run_input(w, cfg, toks, rec['body'], 'replay')
-        new['sig']['src'] = rec['sig'].get('src', 'replay')
+        new['sig']['src'] = rp.get('src', 'replay')
         out.write(new)
     finally:
         w.cleanup()
